@@ -11,6 +11,10 @@
 2. harness/cmd/renewal builds real chains, CSRs and CMS messages, calls the real
    RequestVerifier.VerifyCMSSignedRenewalRequest over a real in-memory sqlite trust DB at wall-clock
    now (boundaries >= 2 days away) and the real CAPolicy.CreateChain with explicit CurrentTime.
+   Every request also goes in-process through the gRPC handler layer: renewalgrpc.RenewalServer ->
+   renewalgrpc.CMS -> the real RequestVerifier and renewal.ChainBuilder/CAPolicy; the issued chain is
+   taken from the signed response (the request format without CMS envelope no longer exists: a request
+   without CmsSignedRequest must be refused).
 3. TLC (spec/TrustRenewTrace.tla) judges: accepted => RenewRule = ""; issued => inside the CA's
    validity with the requested key and subject, a valid chain.
 """
@@ -38,6 +42,7 @@ def run(c):
         _pki.need(c, r, "accepted", "accepted renewal request")
         _pki.need(c, r, "accepted_via_grace", "renewal request accepted through the grace period")
         _pki.need(c, r, "issued", "issued chain")
+        _pki.need(c, r, "issued_by_handler", "chain issued through the gRPC handler layer")
     _pki.drift(c, r)
     n, distinct = vlib.count_distinct(
         trace, lambda e: None if e.get("ev") not in ("renew", "issue") or not e["ok"] else
@@ -49,7 +54,7 @@ def run(c):
     c.cov["rule"] = ("one evaluation = one renewal request (or one CreateChain call) executed on the real code; "
                      "non-trivial = accepted / issued (antecedent of the only-if statement); exhaustive = the full "
                      "product space of the TLC model was executed")
-    for k in ("accepted", "accepted_via_grace", "issued"):
+    for k in ("accepted", "accepted_via_grace", "issued", "issued_by_handler"):
         c.cov[k] = r.stats.get(k, 0)
     c.sample_trace(trace, nevents=4)
     c.assumptions += [
